@@ -399,6 +399,50 @@ def detection_specs(draw) -> dict:
     return {"L": length, "circular": circular, "genes": genes, "hits": hits, "rules": spec_rules}
 
 
+@st.composite
+def superior_specs(draw) -> dict:
+    """ focused on SUPERIORS: a superior rule ('a') and one or two inferior rules ('b', 'c') whose hits sit on the
+        same or neighbouring genes, in 2-6 gene groups spread around the record including both record ends,
+        with neighbourhoods that can wrap over the origin while the core does not """
+    length = draw(st.sampled_from([300, 600, 1500, 5000]))
+    circular = draw(st.integers(0, 3)) > 0
+    unit = length // 100
+    cutoff = draw(st.sampled_from([unit, 2 * unit, 5 * unit]))
+    rules_spec = [{"name": "r0", "conditions": ["id", "a"], "superiors": [], "extenders": None, "cutoff": cutoff,
+                   "neighbourhood": draw(st.sampled_from([0, unit, 3 * unit, 8 * unit]))}]
+    for index, profile in enumerate(draw(st.sampled_from([["b"], ["b", "c"]]))):
+        sups = ["r0"] if index == 0 or draw(st.booleans()) else ["r1"]
+        rules_spec.append({"name": f"r{index + 1}", "conditions": ["id", profile], "superiors": sups, "extenders": None,
+                           "cutoff": draw(st.sampled_from([cutoff, unit, 4 * unit])),
+                           "neighbourhood": draw(st.sampled_from([0, unit, 3 * unit]))})
+    group_count = draw(st.integers(2, 6))
+    anchors_pool = [0, unit, length - 4 * unit, length - 2 * unit, length // 2, length // 3, (2 * length) // 3, length // 5]
+    genes = []
+    hits = {}
+    used = []
+    for _ in range(group_count):
+        base = draw(st.sampled_from(anchors_pool))
+        pos = base
+        for _ in range(draw(st.integers(1, 3))):
+            size = draw(st.sampled_from([3, unit, 2 * unit]))
+            start = min(max(0, pos), length - 3)
+            end = min(length, start + max(3, size))
+            if any(not (end <= lo or start >= hi) for lo, hi in used):
+                pos = end + 1
+                continue
+            used.append((start, end))
+            name = f"g{len(genes)}"
+            genes.append({"name": name, "loc": {"parts": [[start, end]], "strand": draw(st.sampled_from([1, -1])),
+                                                "kind": "simple"}})
+            chosen = draw(st.sampled_from([["a"], ["b"], ["a", "b"], ["a", "c"], ["c"], ["a", "b", "c"], []]))
+            hits[name] = {p: 100 for p in chosen}
+            pos = end + draw(st.sampled_from([0, 1, max(1, cutoff - 1), cutoff, cutoff + 1]))
+    if not genes:
+        genes.append({"name": "g0", "loc": {"parts": [[0, 3]], "strand": 1, "kind": "simple"}})
+        hits["g0"] = {"a": 100, "b": 100}
+    return {"L": length, "circular": circular, "genes": genes, "hits": hits, "rules": rules_spec}
+
+
 def enum_cases(max_len: int):
     def cases():
         for length in range(9, max_len + 1):
@@ -430,3 +474,4 @@ def enum_cases(max_len: int):
 def run(ctx) -> None:
     ctx.enum("detection_enum", enum_cases(ctx.pick(11, 14)), shards=ctx.pick(16, 16))
     ctx.hyp("detection", detection_specs(), max_examples=ctx.pick(2500, 40000), shards=ctx.pick(8, 16))
+    ctx.hyp("detection", superior_specs(), max_examples=ctx.pick(1500, 20000), shards=ctx.pick(8, 16))
